@@ -379,7 +379,8 @@ def r5_unbounded(rep, facts):
     sites = [c for c in src['cfgs'] if '/toml_edit/src/parser/' in c['file'] and
              ('RecursionCheck' in item_scope(src, c) or (c['node'].startswith('item') and c['name'] in ('LIMIT', 'RecursionCheck', 'check_recursion')))]
     preds = sorted(set(c['pred'] for c in sites))
-    rep.check(R, 'prelude|cfg-predicates', preds == ['not (feature = "unbounded")'], f'{len(sites)} gates, all `not(feature = "unbounded")`',
+    # (a twin `#[cfg(feature = "unbounded")] impl` with empty bodies next to the real one is the same switch written the other way round)
+    rep.check(R, 'prelude|cfg-predicates', preds and set(preds) <= {'not (feature = "unbounded")', 'feature = "unbounded"'}, f'{len(sites)} gates, all on feature "unbounded"',
               f'the recursion counter is gated by {preds}')
 
 
